@@ -366,7 +366,7 @@ PROPERTIES = {
                     'yaml::transcode_reader (verbatim, same unit) offers every document the chunker emits to the output exactly once, in order, with exactly its bytes, and has offered all of them when it returns Ok.',
         assumptions=['libyaml event contract (assumed, stated as the stand-in Parser::next_event contract in U-CHK-V): one event per call, marks monotone, within the bytes delivered and on UTF-8 boundaries, '
                      'bytes reach libyaml only through ChunkReader::read, DOCUMENT-END is followed by DOCUMENT-START or STREAM-END', 'termination of the event loop in Chunker::next rests on libyaml reaching a document boundary (not proved)'],
-        not_covered=['writeln!/--- framing in json::Output / yaml::Output beyond the framing harnesses (real serializers)', 'Translator keeping one output (a struct field)']),
+        not_covered=['writeln!/--- framing in json::Output / yaml::Output beyond the framing harnesses (real serializers)']),
     'C04': dict(
         explanation='Panic-freedom / termination of every function under contract: Verus checks bounds, overflow and decreases for the size calculator (all inputs); every Kani '
                     'harness checks all panics, unwraps, index, overflow and pointer obligations of the real code under its stated precondition, incl. stream.rs '
@@ -374,7 +374,7 @@ PROPERTIES = {
                     'Verus additionally proves absence of overflow / out-of-bounds / failed unwrap for every size in CaptureReader, FusedReader, Handle::borrow_mut, Ref::prefix (U-CAP-V), ArrayBuffer<SIZE>, Utf8Encoder::read incl. termination of both loops (U-ENC-V), '
                     'ChunkReader and Chunker::next incl. String::from_utf8(chunk).unwrap() under the libyaml mark assumption (U-CHK-V).',
         assumptions=['all dependency code is total', 'libyaml marks valid and on UTF-8 boundaries (String::from_utf8(chunk).unwrap() in Chunker::next is proved panic-free UNDER this assumption)'],
-        not_covered=['stack depth', 'hangs inside parsers (e.g. while de.end().is_err()); termination of Chunker::next', 'alias bombs / huge declared lengths inside rmp/serde', 'Parser::new/next_event, main()']),
+        not_covered=['stack depth', 'hangs inside parsers (e.g. while de.end().is_err()); termination of Chunker::next', 'alias bombs / huge declared lengths inside rmp/serde', 'Parser::new/next_event (libyaml calls)']),
     'C05': dict(
         explanation='Footprint contracts on the buffers xt owns: CaptureReader::read consults the source at most once and never for more than fits the caller buffer (no read-ahead); '
                     'capture_up_to_size never captures beyond max(len, size); FusedReader drops the captured prefix at its first EOF; ChunkReader holds exactly stream[start..delivered] '
@@ -396,7 +396,7 @@ PROPERTIES = {
                     'independent bit-level definition of UTF-8, and the stream theorem: any schedule of read() calls hands out exactly utf8(text without one leading BOM).',
         assumptions=['libyaml / serde_yaml treat the re-encoded bytes like native UTF-8 input (they receive identical bytes)', 'decoder byte positions < 2^64-16',
                      'char::encode_utf8 == utf8_bytes (assumed spec; RFC 3629 table) and vstd\'s prophetic Iterator model in U-ENC-V'],
-        not_covered=['Encoder::from_reader peek-and-chain (io::copy under CBMC)', 'detection through yaml::input_matches (calls libyaml)']),
+        not_covered=['Encoder::from_reader peek-and-chain (io::copy under CBMC)', 'that yaml::input_matches hands Encoder::new the encoding detected from the first DETECT_LEN bytes (extracted verbatim in U-CHK-V, but no obligation on that argument)']),
     'C08': dict(
         explanation='Verus U-TML-V on the verbatim src/toml.rs, for ANY history of calls: ensure_one_use / output_value / transcode_from / transcode_value / flush against the view (used, write_all log, other writes): a used output writes nothing and fails; an unused one sets the mark and hands the writer at most one buffer, exactly the text to_string_pretty returned for the root table (exactly one on Ok), never through `write`; non-table roots fail with NonTableRoot and no write; THEOREM lemma_at_most_one_document: along any sequence of such calls from new(w) the writer has received nothing or exactly one complete document. toml::input_matches: 2 MiB cutoff, non-UTF-8 => Ok(false), reader error => Err. Kani, real code against the real std within bounds: TOML output state machine, view = (used, writer calls): ensure_one_use; second use refused from any history before the deserializer is touched and with zero writer calls; '
                     'non-table roots (every variant, any payload) refused with zero writes; the use mark is set before deserialization; table root => exactly one write_all of exactly the '
@@ -411,7 +411,7 @@ PROPERTIES = {
                     '(any sequence of reads after a rewind yields capture[0..pos], i.e. the stream from byte 0).',
         assumptions=['what each trial parser accepts (assumed)', 'assumed std specs of Cursor / Read / Write / Take in U-CAP-V (coverage.trusted_base)', 'std::io::default_read_to_end stubbed by its documented contract in capture_* harnesses',
                      'rmp_serde / serde_json error categories as stated in the stubs'],
-        not_covered=['same-format detection from slice and reader for JSON/YAML/TOML (two parser entry points each)', 'yaml::input_matches / toml::input_matches result mapping (call libyaml / toml)',
+        not_covered=['same-format detection from slice and reader for JSON/YAML/TOML (two parser entry points each)', 'what libyaml / the toml parser accept behind yaml::input_matches / toml::input_matches (their result mapping IS under contract: U-CHK-V, U-TML-V)',
                      'reading through the chain built by Input::from(handle) and Ref::prefix through Box<dyn Read> (out of CBMC\'s reach; the decision of Input::from, capture_up_to_size and FusedReader are under contract)']),
     'C10': dict(
         explanation='Gate/order skeleton only: MessagePack trial runs iff byte 0 is a map/array marker (all 256 bytes), so JSON, YAML (---) and ASCII-first TOML output never enter it, and every '
@@ -432,7 +432,7 @@ PROPERTIES = {
                     'TOML write_all; Translator::flush returns the writer\'s result; what the serializer accepted is a prefix of what the deserializer produced. Verus: on Err the capture of CaptureReader is intact and source_eof unchanged (every size); '
                     'Utf8Encoder::read returns the source\'s own error (never Ok, never invented); ChunkReader::read keeps the capture on Err; Chunker::next wraps parser errors as InvalidData and loses no completed document.',
         assumptions=['serializer crates write a prefix of the fault-free output and handle short writes (inside the crates / write_all)'],
-        not_covered=['bytes accepted by a failing writer are a prefix of the fault-free output (serializer crates)', 'Parser::next_event re-surfacing the stashed error (calls libyaml)',
+        not_covered=['bytes accepted by a failing writer are a prefix of the fault-free output (serializer crates)', 'libyaml\'s own behaviour after a failed read (stubbed in next_event_resurfaces_stashed_reader_error)',
                      'complete documents delivered before a reader fault (needs the parsers)']),
     'C14': dict(
         explanation='Extension table: extension_format == table(ascii_lowercase(ext)) for every extension byte string of length 0..=7 that Path::extension may return; Stdin => None; '
@@ -461,10 +461,10 @@ PROPERTIES = {
         not_covered=['the bytes themselves (only that flush is called, and its result honoured, after every input)', 'partial output of the failing input']),
     'C16': dict(
         explanation='Contract on the stdout wrapper pipecheck::Writer: every Write method forwards to the same inner method once; '
-                    'a BrokenPipe result diverts to exit_for_broken_pipe and never returns; every other result is returned unchanged.',
+                    'a BrokenPipe result diverts to exit_for_broken_pipe and never returns; every other result is returned unchanged. Verus U-MAIN-V (verbatim main()): every finished input is flushed through that wrapper, and the flush result is honoured, before the next input is opened and before a normal return -- no output is left to a destructor whose write error would be discarded.',
         assumptions=['raise(SIGPIPE) with SIG_DFL terminates the process silently (libc/kernel; not modelled)',
-                     'main() places the wrapper outside the BufWriter and maps other write errors to exit status 1 (main() is not under contract)'],
-        not_covered=['signal delivery', 'wrapper placement in main()', 'exit status 1 path in main()']),
+                     'main() places the wrapper outside the BufWriter (type-checked only: the wrapper types are stand-ins in U-MAIN-V)'],
+        not_covered=['signal delivery', 'the position of the pipecheck wrapper relative to the BufWriter in main() (main() itself is under contract in U-MAIN-V: flush honoured after every input, every failure leaves through process::exit)']),
     'C17': dict(
         explanation='Unsafe code xt wrote that can be isolated: Parser::read_handler with a reader that returns any Ok(n) (even n > buffer) or Err: no write beyond buffer_size (canary bytes), '
                     'success => size_read <= buffer_size and destination == what the reader produced, failure => error stashed and destination untouched, null arguments refused; '
